@@ -114,3 +114,36 @@ package utils
 //@            r.rnges[old(len(r.rnges))].min == min && r.rnges[old(len(r.rnges))].max == max
 //@   ensures keeps_earlier: forall(i, 0, old(len(r.rnges)), r.rnges[i] == old(r.rnges[i]) && r.rnges[i].min == old(r.rnges[i].min) && r.rnges[i].max == old(r.rnges[i].max))
 //@   ensures still_ok: srngesOK(r)
+
+// ---------------------------------------------------------------------------
+// C11: path <-> element sequence. Key values of one path element are laid out in the order of the sorted key names.
+
+//@ spec strlt(string, string) Bool
+//@ axiom strlt_irreflexive: allstr(a, !strlt(a, a))
+//@ axiom strlt_transitive: allstr(a, allstr(b, allstr(c, strlt(a, b) && strlt(b, c) ==> strlt(a, c))))
+//@ axiom strlt_total: allstr(a, allstr(b, a == b || strlt(a, b) || strlt(b, a)))
+
+// sort.Strings permutes its argument: at every call there is a permutation perm (with inverse inv) of the indices
+//@ extern sort.Strings
+//@   ghostmap perm inv
+//@   modifies elems(x)
+//@   ensures sorted: forall(i, 0, len(x), forall(j, i + 1, len(x), !strlt(x[j], x[i])))
+//@   ensures permutation: forall(i, 0, len(x), 0 <= perm[i] && perm[i] < len(x) && x[i] == old(x[perm[i]]) && inv[perm[i]] == i)
+//@   ensures inverse: forall(j, 0, len(x), 0 <= inv[j] && inv[j] < len(x) && x[inv[j]] == old(x[j]) && perm[inv[j]] == j)
+
+//@ func sortedVals
+//@   props C11
+//@   ensures one_value_per_key: len(result) == len(m)
+//@   ensures every_key_contributes: allstr(k, present(m, k) ==> exists(j, 0, len(result), result[j] == m[k]))
+//@   internal in_sorted_key_order: len(m) != 1 ==> len(vs) == len(ks) && forall(j, 0, len(vs), present(m, ks[j]) && vs[j] == m[ks[j]]) && forall(i, 0, len(ks), forall(j, i + 1, len(ks), !strlt(ks[j], ks[i])))
+//@   loop 0 invariant counts: len(ks) == len($visited)
+//@   loop 0 invariant visits_keys: allstr(k, $visited[k] ==> present(m, k))
+//@   loop 0 invariant collected_are_visited: forall(j, 0, len(ks), $visited[ks[j]])
+//@   loop 0 invariant visited_are_collected: allstr(k, $visited[k] ==> exists(j, 0, len(ks), ks[j] == k))
+//@   loop 1 invariant separate_backing_arrays: baseof(vs) != baseof(ks)
+//@   loop 1 invariant one_value_per_sorted_key: len(vs) == $i + 1
+//@   loop 1 invariant values_follow_keys: forall(j, 0, len(vs), vs[j] == m[ks[j]])
+//@   loop 1 invariant keys_stay_sorted: forall(i, 0, len(ks), forall(j, i + 1, len(ks), !strlt(ks[j], ks[i])))
+//@   loop 1 invariant keys_are_keys: forall(j, 0, len(ks), present(m, ks[j]))
+//@   loop 1 invariant keys_complete: allstr(k, present(m, k) ==> exists(j, 0, len(ks), ks[j] == k))
+//@   loop 1 invariant key_count: len(ks) == len(m)
